@@ -40,6 +40,9 @@ const (
 	c7NS
 	c7Obj
 	c7Mut
+	c7Refl
+	c7Err
+	c7Arr
 )
 
 type c7field struct {
@@ -162,6 +165,12 @@ func (w *c7world) zapFields(fs []c7field) []zap.Field {
 			out = append(out, zap.Object(f.key, c7static{f.ival}))
 		case c7Mut:
 			out = append(out, zap.Object(f.key, c7mut{w, f.mut}))
+		case c7Refl:
+			out = append(out, zap.Reflect(f.key, map[string]int{"r": f.ival}))
+		case c7Err:
+			out = append(out, zap.NamedError(f.key, fmt.Errorf("e%d", f.ival)))
+		case c7Arr:
+			out = append(out, zap.Ints(f.key, []int{f.ival, f.ival + 1}))
 		}
 	}
 	return out
@@ -199,6 +208,12 @@ func c7expect(fs []c7field) []jkv {
 				v = f.lz.val
 			}
 			out = append(out, jkv{f.key, []jkv{{"v", json.Number(strconv.Itoa(v))}}})
+		case c7Refl:
+			out = append(out, jkv{f.key, []jkv{{"r", json.Number(strconv.Itoa(f.ival))}}})
+		case c7Err:
+			out = append(out, jkv{f.key, fmt.Sprintf("e%d", f.ival)})
+		case c7Arr:
+			out = append(out, jkv{f.key, []any{json.Number(strconv.Itoa(f.ival)), json.Number(strconv.Itoa(f.ival + 1))}})
 		case c7NS:
 			out = append(out, jkv{f.key, c7expect(fs[i+1:])})
 			return out
@@ -280,12 +295,12 @@ func (w *c7world) genFields(g *zsim.Stream, id int, allowMut bool, slogOnly bool
 	var out []c7field
 	for j := 0; j < n; j++ {
 		f := c7field{key: fmt.Sprintf("f%d_%d", id, j), ival: g.Draw(50)}
-		wts := []int{4, 3, 1, 2, 0}
+		wts := []int{4, 3, 1, 2, 0, 2, 1, 2}
 		if allowMut {
 			wts[c7Mut] = 3
 		}
 		if slogOnly {
-			wts = []int{4, 3, 0, 0, 0}
+			wts = []int{4, 3, 0, 0, 0, 0, 0, 0}
 		}
 		f.kind = g.Weighted(wts...)
 		if f.kind == c7Mut {
